@@ -57,6 +57,11 @@ def entries(tier):
         out.append(("tucker", {"init": init, "svd": "symeig_svd"}))
         out.append(("randomised_parafac", {"init": init, "n_samples": 10}))
         out.append(("cmtf", {"init": init}))
+    # "for all initialisations": a user-supplied CP tensor with non-unit weights
+    for norm in (False, True):
+        out.append(("parafac", {"init": "USERW", "normalize_factors": norm}))
+        out.append(("non_negative_parafac", {"init": "USERW", "normalize_factors": norm}))
+        out.append(("non_negative_parafac_hals", {"init": "USERW", "normalize_factors": norm}))
     out.append(("parafac", {"init": "svd", "normalize_factors": True, "linesearch": True}))
     for sc in (1e-18, 1e18):
         out.append(("parafac", {"init": "random", "normalize_factors": True, "_scale": sc}))
@@ -168,6 +173,13 @@ class C08(Check):
         if "_scale" in opts:  # the same data in a tiny / huge unit (numerical guards around "zero" norms)
             X = X * opts.pop("_scale")
         tag = entry + (":symeig_svd" if opts.get("svd") == "symeig_svd" else "")
+        if opts.get("init") == "USERW":
+            if not isinstance(rank, int):
+                ctx.count("guarded_out:user-init-needs-integer-rank")
+                return
+            w_, f_ = itm.cp_init(shape, rank, case["seed"], "positive", nonneg=nonneg)
+            opts["init"] = (w_.copy(), [np.array(f, copy=True) for f in f_])
+            tag += ":user-init-weights"
         rs = 0
         np.random.seed(20260927)
         nit, tol = case.get("n_iter_max"), case.get("tol")
